@@ -1,0 +1,58 @@
+//go:build verif
+
+package cluster
+
+import (
+	"fmt"
+	"os"
+	"strconv"
+	"strings"
+
+	"github.com/semafind/semadb/diskstore"
+)
+
+// Fault point at the top of RPCSendShard, compiled only with the build tag `verif`.
+//
+// RPCSendShard runs twice per chunk: once in the sending node (args.Dest != c.MyHostname, the
+// call is then routed to the destination) and once in the receiving node. role is "sender" or
+// "receiver" accordingly. The hook fires *before* the chunk is routed / written.
+//
+// VerifSendShardFault, when non-nil, is consulted first (in-process harness). Otherwise the
+// environment variable SEMADB_VERIF_SENDSHARD_FAULT = "<fail|exit>:<sender|receiver>:<chunkIndex>[:<shardId>]"
+// is used (node run as a child process): "fail" makes the call return an error, "exit" kills
+// the process with status 77 without any cleanup.
+var VerifSendShardFault func(host string, role string, args *RPCSendShardRequest) error
+
+func verifFaultSendShard(c *ClusterNode, args *RPCSendShardRequest) error {
+	role := "sender"
+	if args.Dest == c.MyHostname {
+		role = "receiver"
+	}
+	if f := VerifSendShardFault; f != nil {
+		if err := f(c.MyHostname, role, args); err != nil {
+			return err
+		}
+	}
+	spec := os.Getenv("SEMADB_VERIF_SENDSHARD_FAULT")
+	if spec == "" {
+		return nil
+	}
+	parts := strings.Split(spec, ":")
+	if len(parts) < 3 || parts[1] != role {
+		return nil
+	}
+	k, err := strconv.Atoi(parts[2])
+	if err != nil || k != args.ChunkIndex {
+		return nil
+	}
+	if len(parts) > 3 && parts[3] != "" && parts[3] != args.ShardId {
+		return nil
+	}
+	if parts[0] == "exit" {
+		os.Exit(77)
+	}
+	return fmt.Errorf("verif: injected fault at %s chunk %d", role, args.ChunkIndex)
+}
+
+// VerifNodeDB gives the harness read access to the node database (collection records).
+func (c *ClusterNode) VerifNodeDB() diskstore.DiskStore { return c.nodedb }
